@@ -49,7 +49,7 @@ func (p *c08) Directed() []string {
 	return []string{"two-languages-different-refs", "two-webhook-headers", "many-issues-one-node", "case-variant-json-keys", "clone-with-ui-and-localization", "custom-number-format-then-default", "many-results-fields-groups", "number-format-comma-space", "number-format-comma-dot", "number-format-dot-space", "number-format-dot-comma",
 		// a session that recreates @webhook from a result's extra after being re-read (the recreated value is marked
 		// deprecated), for every kind of bare JSON body, each followed by a session that reads the same kinds of JSON value
-		"reread-webhook-true", "json-value-readers-1", "reread-webhook-false", "json-value-readers-2", "reread-webhook-null", "json-value-readers-3", "reread-webhook-number", "reread-webhook-string", "reread-webhook-array", "reread-webhook-empty", "json-value-readers-4", "legacy-extra-created-on-ties", "reread-webhook-hugeexp", "reread-webhook-nested", "reread-webhook-badjson", "reread-webhook-unavailable"}
+		"reread-webhook-true", "json-value-readers-1", "reread-webhook-false", "json-value-readers-2", "reread-webhook-null", "json-value-readers-3", "reread-webhook-number", "reread-webhook-string", "reread-webhook-array", "reread-webhook-empty", "json-value-readers-4", "legacy-extra-created-on-ties", "reread-webhook-hugeexp", "reread-webhook-nested", "reread-webhook-badjson", "reread-webhook-unavailable", "ambiguous-location-names"}
 }
 
 func (p *c08) Floors(tier string) []string {
@@ -146,6 +146,21 @@ func (p *c08) directed(name string) *gen.Scenario {
 		return &gen.Scenario{Reread: true, Coarse: 1000, Assets: d.BaseAssets(d.Flow("A", "messaging", d.Node("a1", acts, nil, d.Exit("a1x", "a2")), d.WaitNode("a2", "a3", nil),
 			d.Node("a3", []any{d.SendMsg("m", "@legacy_extra.n @legacy_extra.ok @legacy_extra.vip @(json(legacy_extra))")}, nil, d.Exit("a3x", "")))),
 			Trigger: d.Manual("A", nil), Resumes: []gen.M{d.MsgResume(0, "x")}}
+	case "ambiguous-location-names":
+		// names and aliases that several locations of one level answer to: the first in asset order is the one taken
+		as := d.BaseAssets(d.Flow("A", "messaging", d.Node("a1", []any{
+			act("f1", "set_contact_field", gen.M{"field": gen.M{"key": "state", "name": "State"}, "value": "Capital"}),
+			d.SendMsg("m", "@fields.state @(has_state(\"Capital\").match) @(has_state(\"the capital please\").match) @(has_district(\"Central\").match) @(has_district(\"Central\", \"Kigali City\").match) @(has_ward(\"Hill\", \"Gasabo\", \"Kigali City\").match) @(has_state(\"kigali\").match)"),
+		}, nil, d.Exit("a1x", ""))))
+		as["locations"] = []gen.M{{"name": "Rwanda", "aliases": []string{"Ruanda"}, "children": []gen.M{
+			{"name": "Kigali City", "aliases": []string{"Kigali", "Capital"}, "children": []gen.M{
+				{"name": "Gasabo", "aliases": []string{"Central"}, "children": []gen.M{{"name": "Gisozi", "aliases": []string{"Hill"}}, {"name": "Ndera", "aliases": []string{"Hill"}}}},
+				{"name": "Nyarugenge", "aliases": []string{"Central", "Kigali"}, "children": []gen.M{}}}},
+			{"name": "Eastern Province", "aliases": []string{"Capital"}, "children": []gen.M{{"name": "Gatsibo", "aliases": []string{"Central"}, "children": []gen.M{}}}},
+			{"name": "Northern Province", "aliases": []string{"Capital", "Kigali"}, "children": []gen.M{}},
+			{"name": "Southern Province", "aliases": []string{"capital"}, "children": []gen.M{}},
+			{"name": "Western Province", "aliases": []string{"Capital"}, "children": []gen.M{}}}}}
+		return &gen.Scenario{Assets: as, Trigger: d.Manual("A", nil)}
 	case "many-results-fields-groups":
 		var acts []any
 		for i, n := range []string{"Zeta", "alpha", "Beta", "gamma", "Delta", "eps", "Eta"} {
